@@ -280,10 +280,12 @@ def handlePShard (f : List String) : String × String × String :=
     match parseParts parts, startsArr stream, s.toInt?, s2.toInt?, period.toInt?, now.toInt?, parsePOp op with
     | some ps, some starts, some s, some s2, some period, some now, some op =>
       let ps' := applyPOp ps op
-      let mA := showInts (pshard ps starts s 0 now)
+      -- A and E through the checked model (token, owner and partition indexes apart, error returns explicit)
+      let showPC := fun (r : Except Err (List Int)) => match r with | .ok l => showInts l | .error _ => "err"
+      let mA := showPC (pshardC ps starts s 0 now)
       let mB := showInts (pshard ps starts s2 0 now)
       let mC := showInts (pshard ps' starts s 0 now)
-      let mE := showInts (pshard ps starts s period now)
+      let mE := showPC (pshardC ps starts s period now)
       let diff := firstDiff [("A", mA, canonInts oA), ("B", mB, canonInts oB), ("C", mC, canonInts oC), ("E", mE, canonInts oE)]
       let A := parseInts oA; let B := parseInts oB; let C := parseInts oC; let E := parseInts oE
       let j1 := checkPPlain ps s A "" ++ checkPPlain ps s2 B "_s2" ++ checkPPlain ps' s C "_r2"
